@@ -175,7 +175,7 @@ mod static_sel {
         CALLED = 3;
         out[0] = 0xA3;
     }
-    //@ h=agg_static props=C07 cfgs=K6s tier=q t=600 submod=static_sel | funcs: bucket_aggregation::aggregate_48/128/256 with compile-time backend selection | bound: all arguments: the entry points call the SSE2 backend (whose correctness is agg_sse2_*) | stubs: x86_sse2::aggregate_* -> tagging stubs
+    //@ h=agg_static props=C01,C07 cfgs=K6s tier=q t=600 submod=static_sel | funcs: bucket_aggregation::aggregate_48/128/256 with compile-time backend selection | bound: all arguments: the entry points call the SSE2 backend (whose correctness is agg_sse2_*) | stubs: x86_sse2::aggregate_* -> tagging stubs
     #[kani::proof]
     #[kani::unwind(4)]
     #[kani::stub(super::super::x86_sse2::aggregate_48, t48)]
